@@ -34,14 +34,14 @@ impl tracing_core::Collect for Quiet {
 fn take() -> String { let mut r = RECS.lock().unwrap(); let v: Vec<String> = r.drain(..).collect(); if v.is_empty() { "-".into() } else { v.join(",") } }
 
 // every way of writing the same event / span (the macro arms differ; what is logged must not): the form is a function of the
-// first field's value
+// first field's value (in every second form the second field has a dotted name that starts with `log.`: a user's field like any other)
 macro_rules! ev { ($l:expr, $m:ident, $a:expr, $b:expr, $n:expr) => { match $a % 6 {
     0 => tracing::event!(target: "tgt_ev", $l, a = $a, b = %$b, "msg {}", $n),
-    1 => tracing::event!(target: "tgt_ev", parent: None, $l, a = $a, b = %$b, "msg {}", $n),
+    1 => tracing::event!(target: "tgt_ev", parent: None, $l, a = $a, log.b = %$b, "msg {}", $n),
     2 => tracing::event!(name: "ev_name", target: "tgt_ev", $l, a = $a, b = %$b, "msg {}", $n),
-    3 => tracing::event!(name: "ev_name", target: "tgt_ev", parent: None, $l, a = $a, b = %$b, "msg {}", $n),
+    3 => tracing::event!(name: "ev_name", target: "tgt_ev", parent: None, $l, a = $a, log.b = %$b, "msg {}", $n),
     4 => tracing::$m!(target: "tgt_ev", a = $a, b = %$b, "msg {}", $n),
-    _ => tracing::$m!(target: "tgt_ev", parent: None, a = $a, b = %$b, "msg {}", $n),
+    _ => tracing::$m!(target: "tgt_ev", parent: None, a = $a, log.b = %$b, "msg {}", $n),
 } }; }
 macro_rules! sp { ($l:expr, $m:ident, $k:expr) => {{
     let mut outs = Vec::new();
